@@ -26,5 +26,5 @@ Deliverables, all in {wt}/_seeded/ :
   - patch.diff : output of `git -C {wt} diff -- Cython pyximport cython.py` (the change only; must apply with `git apply` to a clean checkout of the same commit)
   - demo.py : as above
   - notes.md : 5-15 lines: what the change is, why it breaks the property, exactly what is needed for it to manifest, and the commands you ran with their results (pytest tail before/after, demo before/after).
-Verify everything yourself: run demo.py with the change applied (must FAIL) and with it reverted via `git stash`/`git checkout` (must PASS), then leave the worktree WITH the change applied. Do not commit. Keep your final reply short: one paragraph summarising the change and the verification results."""
+Verify everything yourself: run demo.py with the change applied (must FAIL) and with it reverted via `git apply -R _seeded/patch.diff` (must PASS; NEVER use `git stash` - the stash is shared between worktrees and other agents use it), then leave the worktree WITH the change applied. Do not commit. Keep your final reply short: one paragraph summarising the change and the verification results."""
 )
